@@ -123,8 +123,9 @@ func c20Lines(b []byte) [][]byte {
 
 func c20Itoa(n int) string { return rt.Itoa(n) }
 
-func c20Format(N, NV int) {
-	n := rt.Choice("n", N+1)
+func c20Format(N, NV int) { c20FormatN(rt.Choice("n", N+1), NV) }
+
+func c20FormatN(n, NV int) {
 	tab := &c20Table{n: n, vals: map[c20Call]int{}, nv: NV}
 	w := &c20W{}
 	err := LIB(w, n, tab.weight)
@@ -169,7 +170,11 @@ func c20Format(N, NV int) {
 }
 
 func H_c20_format_q() { c20Format(4, 3) }
-func H_c20_format_t() { c20Format(5, 6) }
+func H_c20_format_t() { c20Format(4, 6) }
+func H_c20_format5_t() {
+	// n = 5 has 10 weights: two values only (2^10 tables)
+	c20FormatN(5, 2)
+}
 
 // c20Faults: a write failure at any position must surface as a non-nil error.
 func c20Faults(N int) {
